@@ -63,21 +63,73 @@ func (r *rwRT) ruleMutGuard() {
 			}
 		}
 	}
-	// the five file-level cursor callbacks, decided by K1
-	type cbSpec struct{ typ, name string }
-	callbacks := []cbSpec{{"rewriter", "attachComment"}, {"rewriter", "rewriteForRanges"}, {"rewriter", "rewriteIter"}, {"yieldRewriter", "rewrite"}, {"yieldFromRewriter", "rewrite"}}
+	// The file-level cursor callbacks are *discovered*: rewriteFile is evaluated abstractly (the pass
+	// constructors inlined, the traversal astutil.Apply an event) and every function value the traversal is
+	// given — directly, or captured by the forwarding closure — is a callback. Each is then driven over the node
+	// kinds by K1: it may only edit the tree on a path where an API-membership predicate answered true.
 	guarded := map[*ssa.Function]bool{}
 	nodeKinds := []string{"FuncDecl", "FuncLit", "RangeStmt", "IndexExpr", "ExprStmt", "CallExpr", "Ident", "AssignStmt", "ReturnStmt", "ForStmt", "BlockStmt", "GenDecl", "ImportSpec", "CompositeLit", "SelectorExpr"}
 	apiPredicates := []string{"isYieldFuncDecl", "isYieldFuncLit", "isIterator", "isYieldFromCall", "isYieldCall"}
-	for _, cb := range callbacks {
-		fn := r.w.MethodOpt(pathRw, cb.typ, cb.name)
-		if fn == nil {
-			// the pass may have been restructured; its mutator sites are still enumerated below
-			c.Notes = append(c.Notes, "file-level callback "+cb.typ+"."+cb.name+" not found")
+	rf := r.method("rewriter", "rewriteFile")
+	c.fn(relName(rf))
+	din := r.interp(rwConfig{root: rf, boundaries: map[string]bool{"rewriteFile": false, "mkYieldFromRewriter": false, "mkYieldRewriter": false, "collectYieldFunc": true, "rewriteYieldFunc": true, "rewriteForRange": true, "rewriteYieldFrom": true}})
+	din.MaxDepth, din.MaxVisits, din.SnapClosures = 10, 12, true
+	din.Inline = func(f *ssa.Function) bool {
+		return inRw(f) && f.Name() != "collectYieldFunc" && (f == rf || f.Parent() == rf || strings.HasPrefix(f.Name(), "mk") || outermost(f) == rf || !reachesCursorMutator(f, 3))
+	}
+	din.Fields["runningWithGoTest"] = mkBool(false)
+	douts := din.Run(nil, rf, []AV{Sym{Name: "r", NN: true}, Sym{Name: "f", NN: true}, Sym{Name: "printer", NN: true}}, nil)
+	r.account(din)
+	type cbVal struct {
+		val Closure
+		st  *State
+	}
+	var cbs []cbVal
+	seenCb := map[*ssa.Function]bool{}
+	for _, o := range douts {
+		if o.Panicked || o.St.Truncated {
 			continue
 		}
+		for _, e := range o.St.Events {
+			if e.Kind != "call" || e.Fn == nil || e.Fn.Name() != "Apply" || !strings.Contains(fnPkgPath(e.Fn), "astutil") {
+				continue
+			}
+			var vals []AV
+			for _, a := range e.Args {
+				if cl, ok := a.(Closure); ok {
+					vals = append(vals, cl)
+				}
+			}
+			vals = append(vals, e.BoundVals...)
+			for _, v := range vals {
+				cl := v.(Closure)
+				if cl.Fn == nil || !inRw(cl.Fn) || cl.Fn.Parent() == rf || seenCb[cl.Fn] {
+					continue // the forwarding closure of rewriteFile itself is not a pass
+				}
+				seenCb[cl.Fn] = true
+				cbs = append(cbs, cbVal{cl, o.St})
+			}
+		}
+	}
+	if len(cbs) < 3 {
+		c.und("RW.MUTGUARD", "file-level callbacks", r.w.FnPos(rf), fmt.Sprintf("only %d traversal callbacks discovered in rewriteFile", len(cbs)))
+	}
+	for _, cb := range cbs {
+		fn := cb.val.Fn
 		c.fn(relName(fn))
 		guarded[fn] = true
+		// a bound method value: the method it forwards to is the guarded function
+		if strings.HasSuffix(fn.Name(), "$bound") {
+			for _, tb := range fn.Blocks {
+				for _, ti := range tb.Instrs {
+					if tc, ok := ti.(ssa.CallInstruction); ok {
+						if callee := tc.Common().StaticCallee(); callee != nil && inRw(callee) {
+							guarded[bodyOf(callee)] = true
+						}
+					}
+				}
+			}
+		}
 		bad := ""
 		edits := 0
 		for _, kind := range nodeKinds {
@@ -91,20 +143,22 @@ func (r *rwRT) ruleMutGuard() {
 				return nil
 			})
 			in.Fields["runningWithGoTest"] = mkBool(false)
-			args := []AV{Sym{Name: "r", NN: true}, Sym{Name: "cursor", NN: true}, Sym{Name: "pkg", NN: true}}
-			outs := in.Run(nil, fn, args, nil)
+			base := cb.st.clone()
+			mark := len(base.Events)
+			nl := len(base.Labels)
+			outs := in.Apply(base, cb.val, []AV{Sym{Name: "cursor", NN: true}, Sym{Name: "pkg", NN: true}})
 			r.account(in)
 			for _, o := range outs {
 				if o.Panicked {
 					continue
 				}
-				es := cursorEdits(o.St, 0)
+				es := cursorEdits(o.St, mark)
 				if len(es) == 0 {
 					continue
 				}
 				edits++
 				ok := false
-				for _, l := range o.St.Labels {
+				for _, l := range o.St.Labels[nl:] {
 					for _, p := range apiPredicates {
 						if strings.HasPrefix(l, p+"(") && strings.HasSuffix(l, "=true") {
 							ok = true
@@ -116,11 +170,13 @@ func (r *rwRT) ruleMutGuard() {
 				}
 			}
 		}
+		name := strings.TrimSuffix(relName(fn), "$bound")
 		if edits == 0 {
-			c.und("RW.MUTGUARD", "callback "+relName(fn), r.w.FnPos(fn), "no editing path found: the callback no longer mutates the tree here")
+			// a pass that only collects (comments) edits nothing: fine, it is still a guarded entry point
+			c.ok("RW.MUTGUARD", "callback "+name, r.w.FnPos(fn), "traversal callback discovered in rewriteFile; it does not edit the tree on any of the node kinds")
 			continue
 		}
-		c.check(bad == "", "RW.MUTGUARD", "callback "+relName(fn), r.w.FnPos(fn),
+		c.check(bad == "", "RW.MUTGUARD", "callback "+name, r.w.FnPos(fn),
 			fmt.Sprintf("%d editing paths over %d node kinds: every edit happens under a generator / iterator-type / Yield-call predicate", edits, len(nodeKinds)), bad)
 	}
 	// optimiser callbacks: anchored by their own rules
@@ -182,4 +238,31 @@ func (r *rwRT) ruleMutGuard() {
 	if len(sites) < 8 {
 		c.und("RW.MUTGUARD", "mutator call sites", "", fmt.Sprintf("only %d Cursor mutator call sites found", len(sites)))
 	}
+}
+
+
+// reachesCursorMutator: does fn (statically, within depth) call a mutator of astutil.Cursor?
+func reachesCursorMutator(fn *ssa.Function, depth int) bool {
+	fn = bodyOf(fn)
+	if fn == nil || depth < 0 {
+		return false
+	}
+	for _, b := range fn.Blocks {
+		for _, ins := range b.Instrs {
+			if call, ok := ins.(ssa.CallInstruction); ok {
+				if isCursorMutator(call) {
+					return true
+				}
+				if callee := call.Common().StaticCallee(); callee != nil && inRw(callee) && reachesCursorMutator(callee, depth-1) {
+					return true
+				}
+			}
+		}
+	}
+	for _, a := range fn.AnonFuncs {
+		if reachesCursorMutator(a, depth-1) {
+			return true
+		}
+	}
+	return false
 }
